@@ -35,7 +35,7 @@ import collections
 from ..kernel import RunResult, summarize, exception_origin, exception_site
 from ..seams.fs import SimFS, SimOS, Clock
 from ..seams.proc import SimSubprocess
-from ..seams.flow import Unprintable
+from ..seams.flow import Unprintable, NoEq
 
 PROPERTY = "C10"
 LEVEL = "exploration"
@@ -173,7 +173,7 @@ def canon(x, depth=0, fs=None):
         return ("bytes", x.decode("latin-1"))
     if isinstance(x, OneShot):
         return ("oneshot", tuple(x.items), x.taken)
-    if isinstance(x, (Foreign, Writable, WriteProp)):
+    if isinstance(x, (Foreign, Writable, WriteProp, NoEq)):
         d = dict((k, v) for k, v in x.__dict__.items() if not k.startswith("_"))
         return ("obj", type(x).__name__, canon(d, depth + 1))
     return ("obj", type(x).__name__)
@@ -200,7 +200,7 @@ def a_graph(k=0):
 
 COMMON_B = ["int", "float", "tuple", "foreign", "none", "pair-unrelated", "list", "pair-foreign",
             "iterator", "pair-iterator", "unprintable", "pair-unprintable", "bytes",
-            "pair-defaultdict-ctx", "pair-defaultdict-output"]
+            "pair-defaultdict-ctx", "pair-defaultdict-output", "pair-noeq-filepath"]
 
 
 
@@ -252,6 +252,10 @@ def common_b(kind, j, fs):
         return (j, collections.defaultdict(dict, {"info": {"j": j}}))
     if kind == "pair-defaultdict-output":
         return (j, {"info": {"j": j}, "output": collections.defaultdict(dict)})
+    if kind == "pair-noeq-filepath":
+        # data that cannot be compared (an array compares element-wise; here == raises), with the
+        # path of a file written elsewhere in its context
+        return (NoEq(j), {"output": {"filepath": "out/elsewhere%d.txt" % j}})
     if kind == "iterator":
         return OneShot([j, j + 1])
     if kind == "pair-iterator":
@@ -577,7 +581,8 @@ def double(cell):
 class EMapBins(El):
     name = "MapBins"
     a_kinds = ["hist-int-bins", "hist-int-bins-ctx", "hist-int-ctx-bins"]
-    b_kinds = COMMON_B + ["str", "hist-float-bins", "hist-of-hists", "graph", "hist-float-ctx-bins"]
+    b_kinds = COMMON_B + ["str", "hist-float-bins", "hist-of-hists", "graph", "hist-float-ctx-bins",
+                          "hist-list-bins"]
 
     def options(self, tape):
         return {"drop": bool(tape.draw(2, "drop_bins_context"))}
@@ -600,6 +605,9 @@ class EMapBins(El):
             return (lena.structures.histogram([0, 1, 2], [0.5 + j, 1.5]), {"plot": {"name": "b"}})
         if kind == "hist-of-hists":
             return (hist_of_hists(j), {"plot": {"name": "b"}})
+        if kind == "hist-list-bins":
+            # the content of a bin is a list (whose first item is of the selected type)
+            return (lena.structures.histogram([0, 1, 2], [[1 + j, 2], [3, 4]]), {"plot": {"name": "b"}})
         if kind == "hist-float-ctx-bins":
             # bins with context: the same Python type (tuple) as selected bins with context
             return (lena.structures.histogram([0, 1, 2], [(0.5 + j, {"cell": {"c": 1}}), (1.5, {"cell": {"c": 1}})]),
@@ -612,7 +620,8 @@ class EMapBins(El):
 class EIterateBins(El):
     name = "IterateBins"
     a_kinds = ["hist-of-hists", "hist-of-hists-ctx"]
-    b_kinds = COMMON_B + ["str", "hist-scalar-bins", "hist-scalar-bins-ctx", "graph", "hist-scalar-ctx-bins"]
+    b_kinds = COMMON_B + ["str", "hist-scalar-bins", "hist-scalar-bins-ctx", "graph", "hist-scalar-ctx-bins",
+                          "hist-bins-are-lists-of-hists"]
 
     def build(self, o, w):
         return lena.structures.IterateBins()
@@ -631,6 +640,9 @@ class EIterateBins(El):
             return (hist1(j), {"variable": {"name": "x"}})
         if kind == "hist-scalar-ctx-bins":
             return (lena.structures.histogram([0, 1, 2], [(j, {"cell": {"c": 1}}), (5, {"cell": {"c": 1}})]),
+                    {"plot": {"name": "b"}})
+        if kind == "hist-bins-are-lists-of-hists":
+            return (lena.structures.histogram([0, 1, 2], [[hist1(j), hist1(j + 1)], [hist1(2)]]),
                     {"plot": {"name": "b"}})
         if kind == "graph":
             return (a_graph(j), {})
